@@ -812,6 +812,10 @@ func (env *specEnv) evalCall(x SCall) (Val, types.Type) {
 		tn := ""
 		if id, ok := x.Args[1].(SIdent); ok {
 			tn = id.Name
+		} else if f, ok := x.Args[1].(SField); ok {
+			if id, ok := f.X.(SIdent); ok {
+				tn = id.Name + "." + f.Name
+			}
 		}
 		ptr := false
 		if strings.HasPrefix(tn, "ptr_") {
